@@ -53,7 +53,7 @@ def trace_inputs(trace):
 def run_replay(prop, job, ob, inputs, log):
     """native replay on the REAL templates.  Returns (path, reproduced: True/False/None)"""
     os.makedirs(os.path.join(OUT, 'replay'), exist_ok=True)
-    safe = re.sub(r'[^\w.\-]', '_', '%s_%s_%s' % (prop, ob['id'] if ob.get('solver') == 'native' else job, ob.get('name') or ob['id']))
+    safe = re.sub(r'[^\w.\-]', '_', '%s_%s_%s' % (prop, ob['id'] if ob.get('solver') in ('native', 'clang-ast') else job, ob.get('name') or ob['id']))
     path = os.path.join(OUT, 'replay', safe + '.json')
     rec = dict(property=prop, job=job, obligation=ob.get('name'), cbmc_property=ob['id'], kind=ob['kind'],
                description=ob['description'], location=ob['loc'], real=ob.get('real'), solver=ob.get('solver'),
@@ -63,6 +63,9 @@ def run_replay(prop, job, ob, inputs, log):
     if ob.get('solver') == 'native':
         # a bounded native enumeration ran the REAL templates itself: its output is the demonstration
         rec['reproduced'] = True
+        rec['native_output'] = ((ob.get('model') or {}).get('native_output') or {}).get('data')
+    elif ob.get('solver') == 'clang-ast':
+        # a static fact has no input to replay: the replay file carries the places the fact fails at
         rec['native_output'] = ((ob.get('model') or {}).get('native_output') or {}).get('data')
     elif rep and (inputs or rep.get('no_inputs_needed')):
         ok, outtxt = NAT.run_replay(rep, rec, log)
